@@ -146,13 +146,13 @@ def dds_hash(x: Any) -> PyHash:
             # TODO: this is not entirely accurate. The error message will show a 'list' type, but it is actually
             # a dataclass.
             check_len(names)
-            if not names:
-                # A dataclass without fields must not hash like the empty sequence.
-                return _algo_bytes(b"\xffdataclass()")
             vals = [_dds_hash(getattr(elt, n), n) for n in names]
-            return _dds_hash(
+            fields_hash = _dds_hash(
                 [_hash_dict_tuple(name, h) for (name, h) in zip(names, vals)], None
             )
+            # A dataclass is neither a dictionary nor a list: its hash is kept apart from theirs
+            # (the field values were hashed like one-element lists, and no field like the empty list).
+            return _algo_bytes(b"\xffdataclass:" + fields_hash.encode("ascii"))
         if isinstance(
             elt,
             (
